@@ -56,6 +56,10 @@ type smallGen struct {
 }
 
 func (g *smallGen) ttl() time.Duration {
+	if g.r.chance(0.04) {
+		// any int64 duration for which now+d stays inside int64 nanoseconds
+		return time.Duration(g.r.Int64N(1<<61+1<<62) - 1<<62)
+	}
 	switch g.r.intn(10) {
 	case 0, 1, 2, 3:
 		return pick(g.r, ttlCatalogue)
